@@ -21,7 +21,7 @@ _file_cache = {}
 
 NAME_ALPHABET = 'abcdefghijklmnopqrstuvwxyzABCDEFGHIJKLMNOPQRSTUVWXYZ0123456789 _-.,:;()[]{}+=*/%#@!?~^|'
 RISKY_TOKENS = ['$$$$', '>', '<', '$DTYPE', '$DATUM', '$MFMT', '$RFMT', '$MOL', '$RXN', 'M  END', 'M  V30', '&', '"', "'",
-                '&gt;', ']]>', '<x>', '> <a>', '\\', '\t']
+                '&gt;', ']]>', '<x>', '> <a>', '\\']
 
 
 def _load_file(name):
